@@ -123,6 +123,8 @@ pub struct Peer {
     pub name: &'static str,
     pub pc: PeerConnection,
     pub dc: Option<Arc<DataChannel>>,
+    /// further negotiated channels (ids 1, 2, …) when the scenario asks for more than one
+    pub more_dcs: Vec<Arc<DataChannel>>,
     pub audio: Option<Arc<SampleStreamSource>>,
     pub video: Option<Arc<SampleStreamSource>>,
     keep: Vec<Box<dyn std::any::Any + Send + Sync>>,
@@ -139,11 +141,19 @@ impl Peer {
     pub fn new(ctx: &Ctx, k: &PcKnobs, side: usize) -> Peer {
         let cfg = make_config(k, side, &ctx.plan);
         let pc = PeerConnection::new(cfg);
-        Peer { name: if side == 0 { "A" } else { "B" }, pc, dc: None, audio: None, video: None, keep: Vec::new() }
+        Peer { name: if side == 0 { "A" } else { "B" }, pc, dc: None, more_dcs: Vec::new(), audio: None, video: None, keep: Vec::new() }
     }
     pub fn add_dc(&mut self, negotiated: bool) {
         let cfg = DataChannelConfig { negotiated: if negotiated { Some(0) } else { None }, ordered: true, ..Default::default() };
         self.dc = self.pc.create_data_channel("d", Some(cfg)).ok();
+    }
+    pub fn add_more_dcs(&mut self, n: usize) {
+        for i in 0..n {
+            let cfg = DataChannelConfig { negotiated: Some(1 + i as u16), ordered: true, ..Default::default() };
+            if let Ok(dc) = self.pc.create_data_channel(&format!("d{}", 1 + i), Some(cfg)) {
+                self.more_dcs.push(dc);
+            }
+        }
     }
     /// add sending tracks for the media kinds of the mix (call on the answerer AFTER set_remote_description
     /// so the offered transceivers are reused)
@@ -201,14 +211,18 @@ pub async fn negotiate(off: &mut Peer, ans: &mut Peer, k: &PcKnobs, ctx: &Ctx) -
     off.pc.set_local_description(offer.clone()).map_err(|e| format!("{} set_local(offer): {e}", off.name))?;
     // the signaling channel carries text
     let offer_rx = SessionDescription::parse(rustrtc::SdpType::Offer, &offer_s).map_err(|e| format!("offer does not re-parse: {e}"))?;
+    let sig_delay = std::time::Duration::from_millis(ctx.plan.knob("sig_delay_ms", 0).max(0) as u64);
+    tokio::time::sleep(sig_delay).await; // signaling latency: offer in transit
     ans.pc.set_remote_description(offer_rx).await.map_err(|e| format!("{} set_remote(offer): {e}", ans.name))?;
     ans.add_media(k);
+    tokio::time::sleep(sig_delay).await; // the application takes its time before answering
     let _ = ans.pc.create_answer().await.map_err(|e| format!("{} create_answer: {e}", ans.name))?;
     ans.pc.wait_for_gathering_complete().await;
     let answer = ans.pc.create_answer().await.map_err(|e| format!("{} create_answer(2): {e}", ans.name))?;
     let answer_s = answer.to_sdp_string();
     ctx.ev(&format!("sig {} answer", ans.name), &if ctx.plan.knob("dump_sdp", 0) == 1 { answer_s.clone() } else { format!("len={}", answer_s.len()) });
     ans.pc.set_local_description(answer.clone()).map_err(|e| format!("{} set_local(answer): {e}", ans.name))?;
+    tokio::time::sleep(sig_delay).await; // answer in transit
     let answer_rx = SessionDescription::parse(rustrtc::SdpType::Answer, &answer_s).map_err(|e| format!("answer does not re-parse: {e}"))?;
     off.pc.set_remote_description(answer_rx).await.map_err(|e| format!("{} set_remote(answer): {e}", off.name))?;
     Ok((offer_s, answer_s))
